@@ -29,7 +29,7 @@ CHECKS = {
          "Valid literals in random layouts, exotic whitespace, hostile values (out-of-range ints, floats, lists), 1-3-step mutants and arbitrary Unicode text: parse_iso_literal returns Ok or Err without panicking; every span in the result, every semantic token and the diagnostic location satisfies start <= end <= len on character boundaries; semantic tokens strictly increase and do not overlap. 150k cases quick, 3M + 10M libFuzzer executions thorough.",
          "Inputs are valid UTF-8 (the API takes a String); a build without debug assertions is not run separately (the fuzz target is opt-level 2 with debug assertions).", "5/C07"),
  "C08": ("exploration", "property-based testing over generated projects (tape-driven model-first generator, proptest shrinking), each compiled by a fresh process of the real CLI; exit status / signal oracle",
-         "Generated valid projects of five feature tiers, single-fault mutants, raw token damage of schema / extension / sources and cyclic client fields are compiled by fresh isograph_cli processes; the process must exit 0 (iso.ts written) or 1 (diagnostics), never panic, abort or be killed by a signal. 2k projects quick, 80k thorough; recorded crash families are tolerated by root-cause signature only.",
+         "Generated valid projects of five feature tiers plus a refetch-dense preset (many client pointers, repeated client selections), single-fault mutants, raw token damage of schema / extension / sources and cyclic client fields are compiled by fresh isograph_cli processes; the process must exit 0 (iso.ts written) or 1 (diagnostics), never panic, abort or be killed by a signal. 2k projects quick, 80k thorough; recorded crash families are tolerated by root-cause signature only.",
          "The watch-mode clause is covered by C20's driver (panics there carry a C08-style signature); isograph_cli is the debug build of the working tree; a process exceeding 120 s is inconclusive.", "5/C08"),
  "C09": ("exploration", "property-based testing over generated projects (tape-driven model-first generator, proptest shrinking) compiled in-process; artifacts read as data with swc (tsread); oracle = the independent GraphQL front end refgql (parse + June-2018 validation rules)",
          "Accepted generated projects of four tiers (literal / variable / enum / null / object arguments, big and negative ints, odd strings, nested variables, abstract types, pointers, @loadable, __refetch, @exposeField) and the four checked-in projects; every operation the runtime can reach (cooked default export of query_text.ts / refetch query texts / persisted document) is parsed and validated by refgql against the schema built from the very SDL given to the compiler. 24k programs (about 33000 operations) quick, 240k thorough.",
